@@ -431,6 +431,17 @@ func buildAscending(tag string, t *Mast, md *symModel, n int) []uint64 {
 			}
 			verifAssume(verifLayer(k) == uint8(l))
 		}
+		if hi := verifBoundOr("LALT", 0); hi > 0 {
+			// alternating layers: every second key (2nd, 4th, ...) gets layer LALT, the others layer 0. With LALT
+			// above the height the size allows, the top node is wide and every gap between its keys is a
+			// chain of key-less nodes down to a one-entry leaf: growing such a tree puts a new key-less
+			// node on top of every one of those (unchanged) chains
+			l := 0
+			if i%2 == 1 {
+				l = hi
+			}
+			verifAssume(verifLayer(k) == uint8(l))
+		}
 		err := t.Insert(vctx, symKey{k}, v)
 		verifAssert("C01."+tag+".insert.err", err == nil)
 		md.put(k, v)
